@@ -37,14 +37,14 @@ var c12Names = []string{"t.html", "t.html.twig", "t.js", "t.js.twig", "t.css", "
 	// path elements that spell an extension are no extension: an extension follows the last dot of the name
 	"mail/welcome/txt", "widgets/js", "assets/css/main", "js", "txt", "to/url", "x/html_attr/y", "pages/txt/home.html", "a/js.twig", ".js", "dir/.css", "t.js/", "t.txt/x",
 	"twig", ".twig", "twig.twig", "t..twig", "t.", ".", "js.twig",
-	"inline:plain", "inline:dot", "inline:dotmid", "inline:ends-txt", "inline:ends-js", "inline:ends-css-twig"}
+	"inline:plain", "inline:dot", "inline:dotmid", "inline:ends-txt", "inline:ends-js", "inline:ends-css-twig", "inline:brace-ends-txt", "inline:brace-ends-js", "inline:braces-ends-css"}
 
 var c12Payloads = []string{
 	"<script>alert(1)</script>", "' onmouseover='alert(1)", "\"", "&amp; & &lt;", "</style><b>", "a b", "javascript:alert(1)//", "é😀<i>", "plain", "x;y(z)=1/2\\3\n4",
 	"<>\"'&", "%3C+~", "{{ 7 }}{% if %}",
 }
 
-var c12Wrappers = []string{"plain", "safe-same", "safe-other", "safe-nested-other", "safe-other-with-a-derived-value-safe-for-this-type", "named-int-with-String", "named-bool-with-String", "named-float-with-String", "struct-with-String", "slice-with-String", "map-with-String", "safe-for-no-type", "pointer-to-slice-with-String", "stringer-that-answers-differently-the-second-time"}
+var c12Wrappers = []string{"plain", "safe-same", "safe-other", "safe-nested-other", "safe-other-with-a-derived-value-safe-for-this-type", "named-int-with-String", "named-bool-with-String", "named-float-with-String", "struct-with-String", "slice-with-String", "map-with-String", "safe-for-no-type", "pointer-to-slice-with-String", "stringer-that-answers-differently-the-second-time", "negative-int", "negative-int64", "negative-float"}
 
 var escFns = map[string]func(string) string{"html": escape.HTML, "html_attr": escape.HTMLAttribute, "js": escape.JS, "css": escape.CSS, "url": escape.URLQueryParam}
 
@@ -358,10 +358,13 @@ func c12helper(main string, variant int) string {
 	return "helper.js.twig"
 }
 
-var c12Inline = map[string]string{"inline:plain": "", "inline:dot": "Version 1.2 of this. ", "inline:dotmid": "see a.js or "}
+var c12Inline = map[string]string{"inline:plain": "", "inline:dot": "Version 1.2 of this. ", "inline:dotmid": "see a.js or ",
+	// single braces in front of the first delimiter: text like any other
+	"inline:brace-ends-txt": "f() { return ", "inline:brace-ends-js": "a { b } c {x} ", "inline:braces-ends-css": "{ } {a: 1} { "}
 
 // c12InlineTail: text after the construct. An inline source is no file name, whatever its last characters are.
-var c12InlineTail = map[string]string{"inline:ends-txt": " see notes.txt", "inline:ends-js": " load app.js", "inline:ends-css-twig": " style.css.twig"}
+var c12InlineTail = map[string]string{"inline:ends-txt": " see notes.txt", "inline:ends-js": " load app.js", "inline:ends-css-twig": " style.css.twig",
+	"inline:brace-ends-txt": " } see notes.txt", "inline:brace-ends-js": " load app.js", "inline:braces-ends-css": " main.css"}
 
 type c12case struct {
 	main      string
@@ -575,6 +578,15 @@ func (p *c12) Run(i int) (res fw.Result) {
 				x = &gen.Changing{Text: payload}
 			}
 			changing := wi == 13
+			switch wi {
+			case 14:
+				// numbers are data too: a minus sign is a character the js and css escapers encode
+				x, payload = -5, "-5"
+			case 15:
+				x, payload = int64(-1234567890123), "-1234567890123"
+			case 16:
+				x, payload = -2.5, "-2.5"
+			}
 			ctx := map[string]stick.Value{"x": x, "t": true, "f": false, "arr": []stick.Value{x, x}, "hash": map[string]stick.Value{"k": x}, "own": mainType, "ownT": gen.KeyStr(mainType), "ownS": gen.ValStringer{S: mainType}, "strat": "nosuchstrategy"}
 			var buf bytes.Buffer
 			mon.BeginExec()
